@@ -9,7 +9,7 @@ from vlib import Broken, b_json, run_replayer
 import c01
 
 ACTIONS = ["DoMalloc", "DoMallocZero", "DoWrap", "DoClone", "DoSlice", "DoFreeView", "DoCreatePool", "DoReserve",
-           "DoRelease", "DoResize", "DoShrinkToFit", "DoFreePool"]
+           "DoRelease", "DoResize", "DoShrinkToFit", "DoSetAlignment", "DoFreePool"]
 
 
 def classify(b, j):
@@ -41,7 +41,7 @@ def classify(b, j):
                     views -= 1
             last = ":last-view" if views == 1 else ":other-view"
         return "%s:%s%s" % (a, kind, last)
-    if a in ("resize", "shrink", "reserve"):
+    if a in ("resize", "shrink", "reserve", "align"):
         res = 0
         for t in b[:j]:
             if t["x"] == s["x"]:
@@ -152,7 +152,8 @@ def run(ctx):
                     "generated": gen_counts, "actions_taken_in_design_run": cov, "leaky_counterexample": True})
     ctx.assumptions += [
         "one device per history; malloc sizes 16/48 bytes; pool reservations of exactly one 128-byte cell (alignment 128), so that "
-        "pool placement never matters; pool sizes 0..3 cells; setAlignment and detach() are not exercised",
+        "pool placement never matters; pool sizes 0..3 cells; setAlignment only toggles between 128 and 64 (every reservation stays one "
+        "128-byte cell); detach() is not exercised",
         "use_host_pointer x own_host_pointer x (source pointer given or not) are per-call memory properties",
         "the transient old+new peak inside a pool resize with live reservations counts for maxMemoryAllocated() (it is the true high-water mark)",
         "modes Serial (quick) and Serial+OpenMP (thorough)",
